@@ -19,18 +19,18 @@ BOUNDS = {
     "quick": "exhaustive for <=2 vertices (dims 3,2) and <=2 edges of arity 1..2 in every vertex order x every fixed subset x fix_first_pose, plus curated structures: 1..3 vertices of mixed compact dimension (2,3,3,6), <=3 edges of arity 1..3 in any vertex order incl. parallel and reversed edges, several fixed subsets, fix_first_pose in {True,False}; error dimension 2",
     "thorough": "exhaustive: all ordered vertex tuples (arity 1..3) for <=2 edges over <=3 vertices, two dimension patterns, every fixed subset, both fix_first_pose values; plus seeded 4-vertex / 3..4-edge structures",
 }
-BOUNDS = {k: v + "; relinearized (graph already linearised at this state), two-call (flags edited between optimize() calls) and any-chi2 (chi^2 a free value per graph state: the step may raise it) variants of the curated structures" for k, v in BOUNDS.items()}
+BOUNDS = {k: v + "; relinearized (graph already linearised at this state), two-call (flags edited between optimize() calls) any-chi2 (chi^2 a free value per graph state: the step may raise it) and prelinked (edges arrive linked to foreign vertices of the same ids) variants of the curated structures" for k, v in BOUNDS.items()}
 OUTSIDE = "rounding and the numerical quality of SuperLU; graphs beyond the bound (assembly is a fold over edges, the per-edge scatter is what is verified); edges naming the same vertex twice"
 ASSUMPTIONS = ["information matrices symmetric", "vertex ids pairwise distinct", "spsolve stub returns an arbitrary vector (its contract H dx = rhs is not needed for this property)", "lil_matrix stub = dense object matrix with numpy slice-assignment semantics"]
 
 
-def _case(kinds, edges, fixed, ff, prelinearize=False, epoch=False):
+def _case(kinds, edges, fixed, ff, prelinearize=False, epoch=False, prelinked=False):
     def fn(P, g):
         np = P.np
         env = install_stubs(P, g)
         # epoch: chi^2 is a free non-negative value per graph state, so the step may RAISE chi^2 (or leave it unchanged):
         # the vertices still end at pose [+] dx
-        graph, verts, eobjs, ids = structure_graph(P, g, kinds, edges, fixed, epoch_chi2=epoch)
+        graph, verts, eobjs, ids = structure_graph(P, g, kinds, edges, fixed, epoch_chi2=epoch, prelinked=prelinked)
         # binding by id, irrespective of list order
         for tup, e in zip(edges, eobjs):
             P.check("bound_count", len(e.vertices) == len(tup))
@@ -200,5 +200,6 @@ def cases(tier):
     out = [Case(_name(s), _case(*s), timeout=10, old_timeout=20, validate=1 if tier == "quick" or i >= 40 else 2, feas_timeout_ms=1000) for i, s in enumerate(structs)]
     out += [Case("twocalls%d" % i, _two_calls(*t), timeout=10, old_timeout=20, validate=1, feas_timeout_ms=1000) for i, t in enumerate(TWO_CALLS)]
     out += [Case("relinearized|" + _name(s), _case(*s, prelinearize=True), timeout=10, old_timeout=20, validate=1, feas_timeout_ms=1000) for s in QUICK]
+    out += [Case("prelinked|" + _name(s), _case(*s, prelinked=True), timeout=10, old_timeout=20, validate=1, feas_timeout_ms=1000) for s in QUICK[1 :: (3 if tier == "quick" else 1)]]
     out += [Case("anychi2|" + _name(s), _case(*s, epoch=True), timeout=10, old_timeout=20, validate=1, feas_timeout_ms=1000) for s in QUICK[:: (2 if tier == "quick" else 1)]]
     return out
